@@ -158,7 +158,7 @@ func (r *Replayer) run(pkgPath string, models []ReplayModel) (map[int]ReplayResu
 		os.Remove(outF)
 		cmd := exec.Command(bin, "-test.run", "^TestVerifReplay$", "-test.timeout", "30m")
 		cmd.Dir = filepath.Join(repoDir, strings.TrimPrefix(strings.TrimPrefix(pkgPath, "servitor"), "/"))
-		cmd.Env = goEnv("VERIF_MODELS="+inF, "VERIF_OUT="+outF, "HOME="+home, "XDG_CONFIG_HOME="+home)
+		cmd.Env = goEnv("VERIF_MODELS="+inF, "VERIF_OUT="+outF, "HOME="+home, "XDG_CONFIG_HOME="+home, "GORACE=halt_on_error=1")
 		out, runErr := cmd.CombinedOutput()
 		n := 0
 		if f, err := os.Open(outF); err == nil {
